@@ -48,7 +48,7 @@ LEVEL_NOTE = ('Trusted: Coq kernel, gen_tables.py/t14.py, extraction + OCaml dri
 TECHNIQUE = 'Coq proof (refinement of a frame-stack machine to a recursive evaluator, strong induction on the number of sub-commands) + regenerated tables + extracted-model differential correspondence on a live bot'
 EXPLANATION = 'C14: evaluation machine and dispatch model of src/callbacks.py; theorems in coq/C14/Props.v'
 
-KINDS = {'reply': 0, 'echo': 1, 'silent': 2, 'mute': 3, 'err': 4, 'crash': 5, 'foreign': 6}
+KINDS = {'reply': 0, 'echo': 1, 'silent': 2, 'mute': 3, 'err': 4, 'crash': 5, 'foreign': 6, 'ign': 7}
 SENDER = 'u!i@h'
 OWNER = 'boss!boss@owner.example'
 _S = {}
@@ -133,6 +133,9 @@ def make_plugins(S, plugins):
             elif kind == 'echo':
                 irc.reply(' '.join(args))
             elif kind == 'silent':
+                irc.noReply()
+            elif kind == 'ign':            # what Utilities.ignore does
+                msg.tag('ignored')
                 irc.noReply()
             elif kind == 'err':
                 irc.error('E-' + cname)
@@ -371,7 +374,7 @@ def oracle(S, inp, toks, ilog, iout, table):
             return ('val', '%s.%s(%s)' % (owner, c, ','.join(args)))
         if k == 'echo':
             return ('val', ' '.join(args))
-        if k == 'silent':
+        if k in ('silent', 'ign'):     # an ignore-style sub-command contributes nothing, like any noReply
             return ('val', None)
         if k == 'crash' and not st.get('detailed', False):
             return ('val', S['conf'].supybot.replies.error())
@@ -661,7 +664,7 @@ def finish_cases(ctx, S, recs):
 # ------------------------------------------------------------------ generators
 PNAMES = ['Al', 'Be', 'Ga', 'De', 'FooBar', 'Ep']
 CNAMES = ['a', 'b', 'c', 'e', 'dup', 'al', 'be', 'ga', 'list', 'x1']
-BEHS = ['reply', 'reply', 'reply', 'echo', 'echo', 'silent', 'mute', 'err', 'crash']
+BEHS = ['reply', 'reply', 'reply', 'echo', 'echo', 'silent', 'ign', 'ign', 'mute', 'err', 'crash']
 WORDS = ['1', 'x', 'Hello', 'a', 'dup', 'é', 'A-B', 'al', 'be', 'Al', 'foo_', '-', 'two words', '', 'ß', 'E', 'DUP', 'a_', 'b-']
 
 
@@ -745,6 +748,14 @@ CORPUS = [
       'a []', 'a [nosuch]', '[e a] 5', 'e', 'e [e]', 's', '[s]', 'a [[s]]', 'b [b [a]]', 'e [e ""] x', 'al', 'a [b [a [b]]] [b]', 'e [s] [s]',
       'e [e [e [e [e [e [e [e [e [e [e 1]]]]]]]]]]', 'e [e [e [e [e [e [e [e [e [e [e [e 1]]]]]]]]]]]',
       'a [a 1] [e [e [e [e [e [e [e [e [e [e [e [e 1]]]]]]]]]]]]', 'list', 'help a', 'a [dup]', 'a-', 'A_ 1', '-a']),
+    # ignore-style sub-commands (tag 'ignored' + noReply) before, between, after replying siblings, nested, threaded, at the root
+    ({'plugins': [{'name': 'Al', 'cmds': [['echo', 'echo'], ['ign', 'ign'], ['a', 'reply'], ['s', 'silent'], ['x', 'err']]},
+                  {'name': 'Be', 'threaded': True, 'cmds': [['b', 'reply'], ['ti', 'ign']]}],
+      'settings': {}},
+     ['echo [ign] [echo foo] bar', 'echo [echo foo] [ign] bar', 'echo [echo foo] bar [ign]', 'echo [ign] [ign] [echo foo] [ign] [a] bar',
+      'echo [ign] [a [ign] [echo x] y] [echo z]', 'echo [a [echo 1] [ign]] [echo 2]', 'echo [ign] [b 1] [echo 2]', 'echo [ti] [echo foo] [b]',
+      'echo [ign] [s] [echo foo]', 'echo [s] [ign] [echo foo]', 'ign', '[ign]', 'echo [[ign]] [echo foo]', 'echo [ign] [x] [echo foo]',
+      'echo [ign x y] [echo foo]', 'a [ign] [ign]']),
     ({'plugins': [{'name': 'Al', 'cmds': [['a', 'reply'], ['c', 'crash'], ['s', 'silent']]}], 'settings': {'detailed': True}},
      ['a [c] z', '[s]', 'a [[s]] y']),
     ({'plugins': [{'name': 'Al', 'cmds': [['a', 'reply'], ['dup', 'reply']]}, {'name': 'Be', 'cmds': [['dup', 'reply'], ['b', 'reply']]},
